@@ -466,6 +466,22 @@ func c11Adversarial(r *mon.Run, key *world.Key, jr *rand.Rand, idx int) {
 		d = refNonrevProof(credA, []int{1}, attach, wB.U, wB.E, rev.Accs[cur].Nu, rev.SAccs[cur], ctx, nonce, nil)
 		try("adv-foreign-witness", fmt.Sprintf("B's witness attached to A's hidden index %d", attach), d, c11Truth{credA, wB.U, wB.E}, false)
 	}
+	// foreign witness with its own alpha: the non-revocation part is proved entirely for B's witness value (alpha response
+	// = own randomiser + c*e_B, sent along explicitly), independently of credential A, whose proof only has to offer one hidden
+	// response small enough to be taken for a revocation attribute. The verifier must take alpha from the credential proof.
+	for _, small := range []int{credA.RevIdx, 2} {
+		dis, hid := hiddenOf(credA, []int{1})
+		p := refimpl.NewDProver(pk, credA.C.Signature, dis, hid)
+		p.R[small] = refimpl.RandBits(500) // within the honest range, below the 2^580 selection bound
+		ownAlpha := refimpl.NewAlphaRandomizer()
+		nr := refimpl.NewNRProver(pk, wB.U, wB.E, rev.Accs[cur].Nu, rev.SAccs[cur], ownAlpha)
+		p.Extra = nr.Commit()
+		c := refimpl.Challenge(ctx, nonce, p.Commit(), false)
+		dd := p.Respond(c)
+		dd.NonRevocationProof = nr.Respond(c)
+		dd.NonRevocationProof.Responses["alpha"] = nr.AlphaResponse(c)
+		try("adv-foreign-witness", fmt.Sprintf("B's witness proved with its own alpha response, A's hidden index %d given a short randomiser", small), dd, c11Truth{credA, wB.U, wB.E}, false)
+	}
 	// foreign issuer's witness and accumulator
 	wf, _ := frev.NewWitness()
 	d = refNonrevProof(credA, []int{1}, credA.RevIdx, wf.U, wf.E, frev.Accs[0].Nu, frev.SAccs[0], ctx, nonce, nil)
